@@ -74,9 +74,13 @@ CLAIMS = {
  "C12": ("Coq theorems (Props/C12.v): printed digest = lowercase hex / raw of S[seek..seek+len] for seek+len <= 2^64-1; "
          "exit status 0 iff every line of every checkfile checks (any number of lines, saturating counter never wraps); every "
          "failing line is diagnosed and the loop continues. Correspondence: the real b3sum binary on generated trees, flag "
-         "combinations, keys of length 0/31/32/33, checkfiles mixing good/stale/missing/malformed lines, LF/CRLF.",
+         "combinations, keys of length 0/31/32/33, checkfiles mixing good/stale/missing/malformed lines, LF/CRLF, --raw outputs of up to 14 KiB "
+         "in the short-write layout of a line-buffered stdout. check_one_line, check_one_checkfile, write_hex_output, write_raw_output, "
+         "hash_one_input and the closure body of main are TRANSLATED statement by statement from b3sum/src/main.rs (gen/GenB3sumFns2.v; file "
+         "system, reader and arguments as Section variables, stdout/stderr as threaded byte lists) and proved equal to the model for all "
+         "inputs (C12_src_*).",
          "Partial: clap argument handling, rayon pool set-up, process exit and the OS are not modelled.",
-         "Coq proof on the model + binary-level correspondence"),
+         "Coq proof on the model + statement-level translation of the b3sum functions proved equal to the model + binary-level correspondence"),
  "C15": ("Coq theorems (Props/C15.v): the reference-implementation model (compress with in-place permute, ChunkState, the "
          "54-entry CV stack with trailing-zeros merging, root_output_bytes) equals the specification output for every mode, "
          "every update split and every output length (ref_refines; Ok = no panic incl. the stack bound); EVERY entry of "
